@@ -16,7 +16,7 @@
 From Avfs Require Import Base PathModel PathSpec PathProofs PathCleanProofs PathIterProofs.
 From Coq Require Import Permutation.
 From Avfs Require Import MemFS MemFile World Posix Inv WalkBridge WalkSym WalkBudget WalkReadlink WalkRel StepEq WalkInv StepInv
-  HeapEq HeapEqSnap StepRename StepRenameDir StepHist StepCwd.
+  HeapEq HeapEqSnap StepRename StepRenameDir StepHist StepCwd StepMkdirAll StepHistM.
 
 Theorem C01_step_stat : forall (s : fsys) (sv : sview) (cs : list str),
   step_hyps s sv -> path_ok s sv SlStat cs ->
@@ -318,3 +318,61 @@ Example C01_history_cwd_example :
   /\ cwd_of (fst (impl_run StepExamples.w_tree StepCwdExamples.hc)) 0 = abs_path [WalkSymExamples.s_d]
   /\ sv_cwd (sw_sv (fst (spec_run StepExamples.sw_tree StepCwdExamples.hc))) = 1.
 Proof. exact StepCwdExamples.hc_agree. Qed.
+
+(* ---- MkdirAll ------------------------------------------------------------------------------------------------------------------- *)
+(* MkdirAll "/done/rest" where [done] is a directory walk from the view root to [par] (no symbolic link met, [dir_at]) and
+   the first component of [rest] is missing in [par] (or [rest] is empty: everything exists): MemFS (one walk, then the
+   creation loop along the path cursor) and os.MkdirAll (stat; recursion on the parent prefix; mkdir) produce the same
+   file system - the chain [mk_chain] of new directories below [par] - and the same answer.  Premises that name listed
+   deviations: the type bit of [par] (Go tests the mode bit, MemFS the node kind) and set-group-id inheritance.  Paths
+   that meet a symbolic link are outside (listed finding C01-MKDIRALL-LINK for the dangling/looping ones). *)
+Theorem C01_step_mkdir_all : forall (s : fsys) (sv : sview) (perm : N) (done rest : list str) (par : nat),
+  let v := sv_view sv in
+  v_os v = Linux -> us_admin (v_user v) = true ->
+  Forall good_comp (done ++ rest) ->
+  dir_at s v done par ->
+  (forall c r, rest = c :: r -> alookup str_eqb c (children (f_heap s) par) = None) ->
+  has (m_mode (meta_of (f_heap s) par)) MODE_DIR = true ->
+  (rest <> [] -> is_setgid (m_mode (meta_of (f_heap s) par)) = false) ->
+  length (done ++ rest) < SEARCH_FUEL ->
+  let p := abs_path (done ++ rest) in
+  (fst (mkdir_all s v p perm), proj_res Linux (snd (mkdir_all s v p perm))) = go_mkdir_all (S (length p)) s sv p perm
+  /\ go_mkdir_all (S (length p)) s sv p perm = (fst (mk_chain s v par rest perm), SOk).
+Proof. exact step_mkdir_all. Qed.
+
+(* the chain is there afterwards: the walk down [done ++ rest] ends in the last new directory, which is empty *)
+Theorem C01_mkdir_all_chain : forall (v : view) (perm : N), v_os v = Linux -> us_admin (v_user v) = true ->
+  forall (rest : list str) (s : fsys) (done : list str) (dn : nat),
+  dir_at s v done dn ->
+  (forall c r, rest = c :: r -> alookup str_eqb c (children (f_heap s) dn) = None) ->
+  let s' := fst (mk_chain s v dn rest perm) in
+  let n' := snd (mk_chain s v dn rest perm) in
+  dir_at s' v (done ++ rest) n'
+  /\ (rest <> [] -> children (f_heap s') n' = [] /\ is_setgid (m_mode (meta_of (f_heap s') n')) = false).
+Proof. exact mk_chain_at. Qed.
+
+Example C01_step_mkdir_all_example :
+  let p := abs_path ([WalkSymExamples.s_d; WalkSymExamples.s_e] ++ [WalkSymExamples.s_x; WalkSymExamples.s_missing; WalkSymExamples.s_d]) in
+  (fst (mkdir_all WalkSymExamples.tree_fs WalkSymExamples.adminv p 493),
+   proj_res Linux (snd (mkdir_all WalkSymExamples.tree_fs WalkSymExamples.adminv p 493)))
+  = go_mkdir_all (S (length p)) WalkSymExamples.tree_fs (WalkSymExamples.sv_of WalkSymExamples.adminv) p 493
+  /\ go_mkdir_all (S (length p)) WalkSymExamples.tree_fs (WalkSymExamples.sv_of WalkSymExamples.adminv) p 493
+     = (fst (mk_chain WalkSymExamples.tree_fs WalkSymExamples.adminv 2
+               [WalkSymExamples.s_x; WalkSymExamples.s_missing; WalkSymExamples.s_d] 493), SOk).
+Proof. exact StepMkdirAllExamples.mkdir_all_instance. Qed.
+
+(* the history theorem with MkdirAll among the covered calls ([covered_m] = [covered_x] or that) *)
+Theorem C01_history_inv_m : forall (vi : nat) (cs : list call) (w : world) (sw : sworld),
+  Inv w -> absw w vi sw -> us_admin (v_user (sv_view (sw_sv sw))) = true -> links_ok (f_heap (w_fs w)) ->
+  call_ok_run_m vi sw cs ->
+  Forall2 obs_sim (snd (impl_run w cs)) (snd (spec_run sw cs))
+  /\ absw (fst (impl_run w cs)) vi (fst (spec_run sw cs))
+  /\ Inv (fst (impl_run w cs)) /\ links_ok (f_heap (w_fs (fst (impl_run w cs)))).
+Proof. exact history_inv_m. Qed.
+
+Example C01_history_inv_m_example :
+  Forall2 obs_sim (snd (impl_run StepExamples.w_tree StepHistMExamples.hm)) (snd (spec_run StepExamples.sw_tree StepHistMExamples.hm))
+  /\ absw (fst (impl_run StepExamples.w_tree StepHistMExamples.hm)) 0 (fst (spec_run StepExamples.sw_tree StepHistMExamples.hm))
+  /\ Inv (fst (impl_run StepExamples.w_tree StepHistMExamples.hm))
+  /\ links_ok (f_heap (w_fs (fst (impl_run StepExamples.w_tree StepHistMExamples.hm)))).
+Proof. exact StepHistMExamples.hm_inv. Qed.
